@@ -104,7 +104,7 @@ RuleRequired(p, q) == IF Required(q) /\ ~Required(p) THEN {<<"CHANGED_REQUIRED",
 RuleMoved(new, i, p, q) ==
   IF p.kind \in POSITIONAL /\ q.kind \in POSITIONAL /\ IndexOf(new, p.name) # i
   THEN {<<"MOVED", p.name>>} ELSE {}
-\* "if old_param.kind is not new_param.kind: incompatible_kind = any((...))"
+\* "if old_param.kind is not new_param.kind: incompatible_kind = any((...))"  - six disjuncts
 RuleKind(new, p, q) ==
   IF p.kind # q.kind /\
      \/ (p.kind = PO /\ q.kind = KO)
@@ -112,6 +112,7 @@ RuleKind(new, p, q) ==
      \/ (p.kind = PK /\ q.kind \in POSKWONLY)
      \/ (q.kind = VK /\ p.kind # KO /\ ~HasKind(new, VP))
      \/ (q.kind = VP /\ p.kind # PO /\ ~HasKind(new, VK))
+     \/ (p.kind \in VARIADIC /\ q.kind \notin VARIADIC)       \* variadic to non-variadic (fix a22df05)
   THEN {<<"CHANGED_KIND", p.name>>} ELSE {}
 \* "non_required and non_variadic and old_param.default != new_param.default"
 RuleDefault(p, q) ==
@@ -151,9 +152,10 @@ Differing(old, new) ==
           \/ IndexOf(old, n) # IndexOf(new, n)
           \/ ByName(old, n).default # ByName(new, n).default}     \* (required-ness differs => default differs)
 
-\* ---- the defect families of the unchanged code (clause (i)), see design.d/C10.md --------------------
-\* same-name kind transitions that no rule of _function_incompatibilities looks at although they can
-\* make CPython reject a previously valid call
+\* ---- the defect families of clause (i), see design.d/C10.md -----------------------------------------
+\* same-name kind transitions that can make CPython reject a previously valid call.  The first six (a
+\* parameter leaving a variadic kind) were silent until fix a22df05 added the sixth disjunct of RuleKind;
+\* they keep their name in the vocabulary (a regression is reported under it) but are no longer excused.
 Transitions(old, new) ==
   {<<ByName(old, n).kind, ByName(new, n).kind>> : n \in {m \in Common(old, new) : ByName(old, m).kind # ByName(new, m).kind}}
 Uncovered == <<  <<VP, PO>>, <<VP, PK>>, <<VP, KO>>,       \* *a   -> a=d (a named parameter)
@@ -217,8 +219,9 @@ Spec == Init /\ [][Next]_vars
 
 \* ---- the property ---------------------------------------------------------------------------------
 Done == pc = "done"
-\* (i) a call-breaking change is reported - on the domain outside the known defect families ...
-I_NoSilentBreak_Clean == (Done /\ breaking /\ cause = "none") => brk # {}
+\* (i) a call-breaking change is reported - on the domain outside the known (unfixed) defect families ...
+KnownCauses == {"ko>pk", "po>pk", "new>pk"}
+I_NoSilentBreak_Clean == (Done /\ breaking /\ cause \notin KnownCauses) => brk # {}
 \* ... and everywhere (DiffSig_defect.cfg: violated by the unchanged code, documents the defect)
 I_NoSilentBreak == (Done /\ breaking) => brk # {}
 \* (ii) moved positional parameter, changed default, optional -> required are always reported
